@@ -154,6 +154,7 @@ func checkC12(c *ev.Ctx) {
 	}
 	c.MinEvals(int64(len(files)))
 	c12Hetero(c)
+	c12Long(c, pool)
 	par(len(files), func(i int) {
 		f := files[i]
 		var b, all []byte
@@ -348,6 +349,42 @@ func c12Hetero(c *ev.Ctx) {
 				c.Violation("concatenation-law", map[string]any{"case_id": id, "streams": ids, "paddings": pads, "reader_dictcap": dc, "file_len": len(b), "error": fmt.Sprint(err), "delivered": len(out),
 					"what": fmt.Sprintf("chain %v (different dictionary sizes / properties / checks) with paddings %v, ReaderConfig.DictCap=%d: error %v, %d bytes (want %d, first difference %d)", ids, pads, dc, err, len(out), len(all), firstDiff(out, all))})
 			}
+		}
+	})
+}
+
+// c12Long reads chains of more than a thousand small streams (with paddings 0, 4, 8 chosen by
+// the seed) through one Reader: whatever a reader carries from stream to stream must not add up.
+func c12Long(c *ev.Ctx, pool []poolStream) {
+	nch := 2
+	if thorough(c) {
+		nch = 12
+	}
+	par(nch, func(i int) {
+		id := fmt.Sprintf("long%d", i)
+		noteCase(id)
+		if !want(c, id) {
+			return
+		}
+		r := prng.New(c.Seed, 128, uint64(i))
+		var b, all []byte
+		n := 1200 + r.Intn(600)
+		for k := 0; k < n; k++ {
+			p := pool[r.Intn(len(pool))]
+			if len(p.B) > 2000 {
+				continue
+			}
+			b = append(b, p.B...)
+			all = append(all, p.Content...)
+			b = append(b, make([]byte, r.Pick(0, 0, 4, 8))...)
+		}
+		out, err := libXZ(b, xz.ReaderConfig{DictCap: []int{0, 4096}[i%2]})
+		c.Eval(fmt.Sprintf("long-chain-%d", i%2), true)
+		c.Count("long_chains", 1)
+		c.Count("long_chain_streams", int64(n))
+		if err != nil || !bytes.Equal(out, all) {
+			c.Violation("concatenation-law", map[string]any{"case_id": id, "streams": n, "file_len": len(b), "error": fmt.Sprint(err), "delivered": len(out),
+				"what": fmt.Sprintf("chain of %d small streams: error %v, %d bytes (want %d, first difference %d)", n, err, len(out), len(all), firstDiff(out, all))})
 		}
 	})
 }
